@@ -161,9 +161,13 @@ def spanOf (toks : List Tok) (q : List Nat) (i len : Nat) (ids : List (List Nat)
   pure ⟨st.start, (en.stop : Int) - st.start,
         sliceInt q st.start ((st.start : Int) + ((en.stop : Int) - st.start)), ids⟩
 
-/-- C16(e) `StringMatcher.find(str)` maps every trie result with `len ≥ 1` to the character span from the
-first character of token `i` to the end of token `i+len-1`, with the text cut from the query. The hypothesis
-`len ≥ 1` is forced by the code (see `matcher_empty_phrase_wraps`). -/
+/-- C16(e) *unfolding lemma, not a specification*: `spanOf` is the loop body of `matcherFind` with the two
+negative-index-wrapping lookups (`pyIndex`) replaced by plain ones — which is all this says: for trie results with
+`len ≥ 1` neither `query_tokens[r.start]` nor `query_tokens[r.start + r.length - 1]` wraps. The slice inside
+`spanOf` is still `sliceInt` (clamping, negative stops) and the result is still an `Option`. What the property
+demands of the results — defined, in bounds, text = plain slice of the query, exactly the token-boundary
+occurrences — is stated without `spanOf` in C16(f)–(h) below. The hypothesis `len ≥ 1` is forced by the code
+(see `matcher_empty_phrase_wrapped_before_fix`). -/
 theorem matcherFind_offsets (tk : List Nat → List Tok) (root : Node) (q : List Nat)
     (hpos : ∀ r ∈ trieFind root ((tk q).map (·.text)), 1 ≤ r.2.1) :
     matcherFind tk root q =
@@ -181,14 +185,192 @@ theorem matcherFind_offsets (tk : List Nat → List Tok) (root : Node) (q : List
   have e4 : (1 : Int) ≤ (i : Int) + (len : Int) := by omega
   simp [e1, e2, e3, e4]
 
-/-- C16(e′) for tries built by `batch_insert` the hypothesis of `matcherFind_offsets` always holds: correct
-offsets, length, text and ids for **every** dictionary and query, with any tokenizer. -/
+/-- C16(e′) for tries built by `batch_insert` the hypothesis of `matcherFind_offsets` always holds, for **every**
+dictionary and query, with any tokenizer. Like `matcherFind_offsets` this restates the implementation (same
+`Option`, same `sliceInt`); it is the normal form the proofs of C16(f)–(h) start from. -/
 theorem matcherRun_offsets (tk : List Nat → List Tok) (dict : List (List Nat × List Nat)) (q : List Nat) :
     matcherRun tk dict q =
       (trieFind (build (dict.map fun p => ((tk p.1).map (·.text), p.2))) ((tk q).map (·.text))).mapM
         (fun r => spanOf (tk q) q r.1 r.2.1 r.2.2) := by
   unfold matcherRun
   exact matcherFind_offsets tk _ q (fun r hr => trieFind_len_pos _ _ r hr)
+
+/-! ### C16(f)–(h): what `StringMatcher.find` returns, in plain terms (no `spanOf`, no `sliceInt`, no `Option`) -/
+
+theorem tokenizeSimple_ok (k : CharClass) (q : List Nat) : TokOK q (tokenizeSimple k q) :=
+  ⟨fun t ht => (tokenizeSimple_slices k q t ht).2.1, fun t ht => (tokenizeSimple_slices k q t ht).2.2,
+    tokenizeSimple_ordered_disjoint k q⟩
+
+theorem tokenizeNWU_ok (k : CharClass) (q : List Nat) : TokOK q (tokenizeNWU k q) :=
+  ⟨fun t ht => (tokenizeNWU_slices k q t ht).2.1, fun t ht => (tokenizeNWU_slices k q t ht).2.2,
+    tokenizeNWU_ordered_disjoint k q⟩
+
+/-- the span of a run of `len ≥ 1` tokens from token `i` (helper: `spanOf` evaluated) -/
+theorem spanOf_plain (q : List Nat) (toks : List Tok) (hok : TokOK q toks) (i len : Nat) (ids : List (List Nat))
+    (hl : 1 ≤ len) (hi : i + len ≤ toks.length) :
+    ∃ st en, toks[i]? = some st ∧ toks[i + len - 1]? = some en ∧ st.start < en.start + en.len ∧
+      en.start + en.len ≤ q.length ∧
+      spanOf toks q i len ids = some ⟨(st.start : Int), ((en.start + en.len - st.start : Nat) : Int),
+        (q.drop st.start).take (en.start + en.len - st.start), ids⟩ := by
+  have h1 : i < toks.length := by omega
+  have h2 : i + len - 1 < toks.length := by omega
+  refine ⟨toks[i], toks[i + len - 1], List.getElem?_eq_getElem h1, List.getElem?_eq_getElem h2, ?_, ?_, ?_⟩
+  · by_cases h : len = 1
+    · subst h
+      have := hok.pos toks[i] (List.getElem_mem h1)
+      simp; omega
+    · have := ordered_getElem_le toks hok.ordered i (i + len - 1) (by omega) h2
+      have := hok.pos toks[i + len - 1] (List.getElem_mem h2)
+      omega
+  · exact hok.hi _ (List.getElem_mem h2)
+  · have hlt : toks[i].start ≤ toks[i + len - 1].start + toks[i + len - 1].len := by
+      by_cases h : len = 1
+      · subst h; simp
+      · have := ordered_getElem_le toks hok.ordered i (i + len - 1) (by omega) h2
+        omega
+    have hhi := hok.hi _ (List.getElem_mem h2)
+    simp only [spanOf, List.getElem?_eq_getElem h1, List.getElem?_eq_getElem h2, Tok.stop, Option.bind_eq_bind,
+      Option.bind_some, Option.pure_def]
+    have := sliceInt_nat q toks[i].start (toks[i + len - 1].start + toks[i + len - 1].len) hlt hhi
+    rw [Option.some.injEq]
+    congr 1
+    omega
+
+/-- the tokenised dictionary `StringMatcher.init` hands to `TrieTree.batch_insert` -/
+def tokDict (tk : List Nat → List Tok) (dict : List (List Nat × List Nat)) : List (List (List Nat) × List Nat) :=
+  dict.map fun p => ((tk p.1).map (·.text), p.2)
+
+/-- C16(f) **`find` is defined**: `StringMatcher.init(values, ids)` followed by `find(query)` raises no `IndexError`,
+for every dictionary, every query and *any* tokenizer — both token lookups of every iteration succeed (`none` in
+the model = the call raises). -/
+theorem matcherRun_defined (tk : List Nat → List Tok) (dict : List (List Nat × List Nat)) (q : List Nat) :
+    ∃ rs, matcherRun tk dict q = some rs := by
+  rw [matcherRun_offsets]
+  apply Option.isSome_iff_exists.1
+  apply mapM_option_isSome
+  rintro ⟨i, len, ids⟩ hr
+  have hp := trieFind_len_pos _ _ _ hr
+  obtain ⟨h1, h2, -, -⟩ := (trieFind_spec _ _ i len ids).1 hr
+  simp only [List.length_map] at h1 h2
+  simp only at hp
+  have h3 : i + len - 1 < (tk q).length := by omega
+  simp [spanOf, List.getElem?_eq_getElem h1, List.getElem?_eq_getElem h3]
+
+/-- C16(h) **exactly the occurrences at token boundaries — no misses, no extras — with their character span, text
+and ids**: `r` is among the results of `find(q)` iff there is a run of `len ≥ 1` consecutive query tokens, from
+token `i` (`st`) to token `i+len-1` (`en`), such that
+* `r.start` is the first character of `st` and `r.start + r.length` is the end of `en` (token boundaries),
+* `r.text` is the Python slice `q[r.start : r.start + r.length]` (plain `drop`/`take` on the **query**),
+* `r.canonical_values` are the ids inserted for exactly that token sequence (in insertion order), one of them a
+  non-empty string (Python `any(values)`).
+For any tokenizer whose token list of `q` is `TokOK` (both are: `tokenizeSimple_ok`, `tokenizeNWU_ok`). -/
+theorem matcherRun_mem_iff (tk : List Nat → List Tok) (dict : List (List Nat × List Nat)) (q : List Nat)
+    (hok : TokOK q (tk q)) (rs : List MatchRes) (h : matcherRun tk dict q = some rs) (r : MatchRes) :
+    r ∈ rs ↔ ∃ i len st en, 1 ≤ len ∧ i + len ≤ (tk q).length ∧
+      (tk q)[i]? = some st ∧ (tk q)[i + len - 1]? = some en ∧
+      r.start = (st.start : Int) ∧ r.start + r.len = ((en.start + en.len : Nat) : Int) ∧
+      r.text = (q.drop r.start.toNat).take r.len.toNat ∧
+      r.ids = idsOf (kept (tokDict tk dict)) ((((tk q).map (·.text)).drop i).take len) ∧
+      r.ids.any (fun v => !v.isEmpty) = true := by
+  rw [matcherRun_offsets] at h
+  rw [mapM_option_mem _ _ _ h r]
+  constructor
+  · rintro ⟨⟨i, len, ids⟩, hr, hs⟩
+    have hp := trieFind_len_pos _ _ _ hr
+    obtain ⟨h1, h2, h3, h4⟩ := (trieFind_spec _ _ i len ids).1 hr
+    simp only [List.length_map] at h1 h2
+    simp only at hp hs
+    obtain ⟨st, en, e1, e2, e3, e4, e5⟩ := spanOf_plain q (tk q) hok i len ids hp h2
+    rw [e5] at hs
+    have hs := (Option.some.inj hs).symm
+    subst hs
+    refine ⟨i, len, st, en, hp, h2, e1, e2, rfl, ?_, ?_, h3, ?_⟩
+    · simp only; omega
+    · simp only [Int.toNat_natCast]
+    · exact h4
+  · rintro ⟨i, len, st, en, hp, h2, e1, e2, hs, hl, ht, hi, ha⟩
+    refine ⟨(i, len, r.ids), ?_, ?_⟩
+    · rw [trieFind_spec]
+      simp only [List.length_map]
+      exact ⟨by omega, h2, hi, ha⟩
+    · obtain ⟨st', en', e1', e2', e3, e4, e5⟩ := spanOf_plain q (tk q) hok i len r.ids hp h2
+      rw [e1] at e1'; rw [e2] at e2'
+      have := Option.some.inj e1'; subst this
+      have := Option.some.inj e2'; subst this
+      simp only
+      rw [e5]
+      obtain ⟨rs', rl, rt, ri⟩ := r
+      simp only at hs hl ht ⊢
+      subst hs
+      have hl' : rl = ((en.start + en.len - st.start : Nat) : Int) := by omega
+      subst hl'
+      simp only [Int.toNat_natCast] at ht
+      rw [ht]
+
+/-- C16(g) **every result is in bounds and its text is the slice of the query at its offsets**:
+`0 ≤ start`, `length ≥ 1`, `start + length ≤ len(query)`, `text = query[start : start + length]` (plain
+`drop`/`take`, no clamping happens), `len(text) = length`, `text` non-empty. -/
+theorem matcherRun_results_plain (tk : List Nat → List Tok) (dict : List (List Nat × List Nat)) (q : List Nat)
+    (hok : TokOK q (tk q)) (rs : List MatchRes) (h : matcherRun tk dict q = some rs) :
+    ∀ r ∈ rs, 0 ≤ r.start ∧ 1 ≤ r.len ∧ r.start + r.len ≤ (q.length : Int) ∧
+      r.text = (q.drop r.start.toNat).take r.len.toNat ∧ r.text.length = r.len.toNat ∧ r.text ≠ [] := by
+  intro r hr
+  obtain ⟨i, len, st, en, hp, h2, e1, e2, hs, hl, ht, -, -⟩ := (matcherRun_mem_iff tk dict q hok rs h r).1 hr
+  have hen : en ∈ tk q := List.mem_of_getElem? e2
+  have hhi := hok.hi en hen
+  have hlen : r.text.length = r.len.toNat := by
+    rw [ht, List.length_take, List.length_drop]; omega
+  obtain ⟨st', en', e1', e2', e3, e4, -⟩ := spanOf_plain q (tk q) hok i len [] hp h2
+  rw [e1] at e1'; rw [e2] at e2'
+  have := Option.some.inj e1'; subst this
+  have := Option.some.inj e2'; subst this
+  refine ⟨by omega, by omega, by omega, ht, hlen, ?_⟩
+  intro hnil
+  rw [hnil] at hlen
+  simp at hlen
+  omega
+
+/-- C16(f)+(g) for `SimpleTokenizer`, every character class, dictionary and query: `find` returns a list (no
+exception) and every element is in bounds with `text = query[start : start + length]`, non-empty. -/
+theorem matcherSimple_plain (k : CharClass) (dict : List (List Nat × List Nat)) (q : List Nat) :
+    ∃ rs, matcherRun (tokenizeSimple k) dict q = some rs ∧
+      ∀ r ∈ rs, 0 ≤ r.start ∧ 1 ≤ r.len ∧ r.start + r.len ≤ (q.length : Int) ∧
+        r.text = (q.drop r.start.toNat).take r.len.toNat ∧ r.text.length = r.len.toNat ∧ r.text ≠ [] := by
+  obtain ⟨rs, h⟩ := matcherRun_defined (tokenizeSimple k) dict q
+  exact ⟨rs, h, matcherRun_results_plain _ dict q (tokenizeSimple_ok k q) rs h⟩
+
+/-- C16(f)+(g) for `NumberWithUnitTokenizer`. -/
+theorem matcherNWU_plain (k : CharClass) (dict : List (List Nat × List Nat)) (q : List Nat) :
+    ∃ rs, matcherRun (tokenizeNWU k) dict q = some rs ∧
+      ∀ r ∈ rs, 0 ≤ r.start ∧ 1 ≤ r.len ∧ r.start + r.len ≤ (q.length : Int) ∧
+        r.text = (q.drop r.start.toNat).take r.len.toNat ∧ r.text.length = r.len.toNat ∧ r.text ≠ [] := by
+  obtain ⟨rs, h⟩ := matcherRun_defined (tokenizeNWU k) dict q
+  exact ⟨rs, h, matcherRun_results_plain _ dict q (tokenizeNWU_ok k q) rs h⟩
+
+/-- C16(h) for `SimpleTokenizer` / `NumberWithUnitTokenizer`: the hypothesis of `matcherRun_mem_iff` discharged. -/
+theorem matcherSimple_mem_iff (k : CharClass) (dict : List (List Nat × List Nat)) (q : List Nat)
+    (rs : List MatchRes) (h : matcherRun (tokenizeSimple k) dict q = some rs) (r : MatchRes) :
+    r ∈ rs ↔ ∃ i len st en, 1 ≤ len ∧ i + len ≤ (tokenizeSimple k q).length ∧
+      (tokenizeSimple k q)[i]? = some st ∧ (tokenizeSimple k q)[i + len - 1]? = some en ∧
+      r.start = (st.start : Int) ∧ r.start + r.len = ((en.start + en.len : Nat) : Int) ∧
+      r.text = (q.drop r.start.toNat).take r.len.toNat ∧
+      r.ids = idsOf (kept (tokDict (tokenizeSimple k) dict)) ((((tokenizeSimple k q).map (·.text)).drop i).take len) ∧
+      r.ids.any (fun v => !v.isEmpty) = true :=
+  matcherRun_mem_iff _ dict q (tokenizeSimple_ok k q) rs h r
+
+theorem matcherNWU_mem_iff (k : CharClass) (dict : List (List Nat × List Nat)) (q : List Nat)
+    (rs : List MatchRes) (h : matcherRun (tokenizeNWU k) dict q = some rs) (r : MatchRes) :
+    r ∈ rs ↔ ∃ i len st en, 1 ≤ len ∧ i + len ≤ (tokenizeNWU k q).length ∧
+      (tokenizeNWU k q)[i]? = some st ∧ (tokenizeNWU k q)[i + len - 1]? = some en ∧
+      r.start = (st.start : Int) ∧ r.start + r.len = ((en.start + en.len : Nat) : Int) ∧
+      r.text = (q.drop r.start.toNat).take r.len.toNat ∧
+      r.ids = idsOf (kept (tokDict (tokenizeNWU k) dict)) ((((tokenizeNWU k q).map (·.text)).drop i).take len) ∧
+      r.ids.any (fun v => !v.isEmpty) = true :=
+  matcherRun_mem_iff _ dict q (tokenizeNWU_ok k q) rs h r
+
+/-! (f)–(h) are not consequences of the *shape* of the loop in `matcherFind`: they need `trieFind_len_pos` (the early
+return of `TrieTree.insert`). With the pre-fix trie the same loop body wraps to the last token and returns a negative
+length — `matcher_empty_phrase_wrapped_before_fix` below. -/
 
 /-- A concrete ASCII character class for the examples below. -/
 def asciiClass : CharClass where
